@@ -139,6 +139,9 @@ func scenarios() []scenario {
 		// T1 life cycle against the flusher and one concurrent observer
 		{name: "read", family: "plain", memCap: 3, flushers: 1, pre: 2, clients: [][]string{t1Full, {"has", "read"}}},
 		{name: "getmd", family: "plain", memCap: 3, flushers: 1, pre: 2, clients: [][]string{t1Del, {"getmd", "getmd"}}},
+		// metadata set before MarkComplete travels with the blob (markDirty lists it)
+		{name: "md-before-complete", family: "plain", memCap: 3, flushers: 1, pre: 2, clients: [][]string{{"create", "write", "setmd:1", "complete", "delmd", "setmd:2"}, {"getmd"}}},
+		{name: "md-before-complete-pressure", family: "pressure", memCap: 3, flushers: 1, pre: 3, clients: [][]string{{"create", "write", "setmd:1", "complete"}, {"createb", "getmd"}}},
 		// delete + re-creation of the same key against a flush of the first incarnation
 		// (T3 = the operations after "as:T3"; it starts when T1 has finished, so both run in one vrt thread)
 		{name: "recreate", family: "delete", deep: true, memCap: 3, flushers: 1, pre: 2, clients: [][]string{cat(t1, []string{"setmd:1"}, t3Recreate)}},
@@ -779,16 +782,18 @@ func (w *world) endState() {
 // Trace-derived root-cause tags (see FINDINGS.md). They are computed from the
 // client/flusher event trace of the execution, not from the violated clause.
 const (
-	tagStale   = "[stale flush entry after re-create]"
+	tagStale   = "[flush of the deleted incarnation outlived Delete]"
 	tagTwice   = "[entry taken twice from the queue after re-create]"
 	tagMDUnban = "[md update raced with deferred unban]"
 )
 
 // tag returns the known race pattern the execution exhibits, or "".
 //
-//   - tagStale: a flusher thread flushed a dirty-table entry (identified by pointer)
-//     that a Delete(a) had aborted, and the following Create(a) returned before that
-//     flush returned (where it removes "the" entry of the key and lifts the ban).
+//   - tagStale: a flush that belongs to the incarnation a Delete(a) removed -- it was
+//     handed the dirty-table entry that Delete aborted (entries are identified by
+//     pointer), or it had begun before that Delete returned -- returned only after the
+//     Delete had returned. Everything such a flush still does (abort check, disk.Create,
+//     failure clean-up, removal of "the" entry, deferred unban) goes by key.
 //   - tagTwice: after a Delete(a) aborted an entry, two flushes were handed the same
 //     (new) entry: the queue still held the key of the aborted entry (the queue holds
 //     keys), so the entry of the re-created blob was dequeued twice.
@@ -797,12 +802,14 @@ const (
 //     the update's eviction ban was taken away by the (deferred) unban of a flush.
 func (w *world) tag() string {
 	for _, f := range w.flushes {
-		dret, stale := w.aborted[f.entry]
-		if !stale {
+		if f.key != keyA {
 			continue
 		}
-		for _, c := range w.log {
-			if c.op == "create" && c.err == nil && c.thread != "end" && c.inv > dret && c.ret < f.end {
+		for _, d := range w.log {
+			if d.op != "delete" || d.err != nil || d.thread == "end" || !(f.end > d.ret) {
+				continue
+			}
+			if dret, aborted := w.aborted[f.entry]; (aborted && dret == d.ret) || f.beg < d.ret {
 				return tagStale
 			}
 		}
